@@ -24,7 +24,7 @@ package common
 //@ func SumPriorities
 //@   requires [*] lsum(priorities, len(priorities)) < two64
 //@   ensures [* C14] result == lsum(priorities, len(priorities))
-//@   assume-arith add-overflow[0]
+//@   assume-arith add-overflow[1]
 //@   loop 0
 //@     invariant [*] sum == lsum(priorities, $i)
 
